@@ -109,6 +109,32 @@ PROPS["C08"] = dict(
     assumptions=SOLVER_ASSUME + ["PeriodicValueIteration.solve requires value_history is not None (a converged solve with the default clear_value_history_on_convergence=True clears it; a further solve() then raises TypeError) - stated precondition, see DESIGN C08"],
 )
 
+CK = "mdpax.utils.checkpointing.CheckpointMixin"
+CAD = [U(V1 + ["contracts.cadence"], f"{VI}.solve", prepare="contracts.cadence:install", tag="cadence", only=["span."], timeout_ms=20000),
+       U(RVM + ["contracts.cadence"], f"{RV}.solve", prepare="contracts.cadence:install", tag="cadence", timeout_ms=20000),
+       U(PVM + ["contracts.cadence"], f"{PV}.solve", prepare="contracts.cadence:install", tag="cadence", pop=[f"{PV}._iteration_step"], timeout_ms=20000),
+       U(SAM + ["contracts.vi_solve", "contracts.cadence"], f"{SA}.solve", prepare="contracts.cadence:install", tag="cadence", only=["fixed.span.", "shuffled.span."], timeout_ms=20000),
+       U(PIM + ["contracts.rvi", "contracts.cadence"], f"{PI}.solve", prepare="contracts.cadence:install", tag="cadence", timeout_ms=20000)]
+CKPT_ASSUME = [ARITH, ENGINE,
+    "Orbax CheckpointManager ADT (assumed, conformance-tested by the bounded harness against orbax-checkpoint 0.12.4): save(step) is accepted iff step > latest step, otherwise silently skipped; after wait_until_finished() the directory lists the max_to_keep largest accepted steps; save() snapshots its argument before returning; restore(step, template) returns the saved leaf for every non-None template leaf and None for a None leaf; commit is atomic",
+    "OmegaConf.save/load round-trips the solver+problem configuration; hydra.utils.instantiate(cfg) builds _target_(**fields)",
+    "pathlib.Path.mkdir/exists are modelled as a ghost effect log / an arbitrary boolean"]
+PROPS["C12"] = dict(level="proof",
+    units=CAD + [U(["contracts.checkpointing"], f"{CK}._setup_checkpointing")],
+    bounded=[dict(name="c12_runtime", script="harness_ckpt.py", args=["--prop", "c12"], wall_s=400)],
+    assumptions=CKPT_ASSUME)
+
+FRAME = dict(script="contracts/frame_static.py", id="frame_static", modules=[], target="frame_static")
+PROPS["C09"] = dict(level="proof",
+    units=[dict(FRAME, ignore=["*template_covers_saved"])] + CAD,
+    bounded=[dict(name="c09_runtime", script="harness_ckpt.py", args=["--prop", "c09"], wall_s=600)],
+    assumptions=CKPT_ASSUME + ["resume equivalence is derived, not stated as one obligation: solve() is a deterministic function of the carried state (frame obligations: everything it reads is either carried or fixed by construction from the configuration), the carried state is saved at a save site whose label is the iteration and whose state object is the current one (cadence.* obligations), every saved field is assigned back to its own attribute, and the configuration round trip is assumed; composition over several interruptions follows by induction on the number of interruptions (C08 composability)"])
+PROPS["C10"] = dict(level="proof",
+    units=[FRAME, U(["contracts.checkpointing"], f"{CK}.restore"), U(["contracts.checkpointing"], f"{CK}.load_checkpoint"), U(["contracts.checkpointing"], f"{CK}.has_full_config"),
+           U(["contracts.checkpointing"], f"{CK}._setup_checkpointing"), U(["contracts.logging_configs", "contracts.validators"], "mdpax.core.solver.Solver._setup_config")],
+    bounded=[dict(name="c10_runtime", script="harness_ckpt.py", args=["--prop", "c10"], wall_s=400)],
+    assumptions=CKPT_ASSUME + ["bit-for-bit equality of arrays through Orbax and tuple-valued parameters through YAML are library behaviour: exercised by the bounded harness (5 solvers x 4 shipped problems), not proved"])
+
 HOOK_COMMITS = []
 NOT_APPLICABLE = {
     "C11": "crash atomicity and writer-thread interleavings live inside Orbax's commit protocol, which is not code of this repository; contracts on mdpax's calls can only assume atomic commit, not decide it (DESIGN.md section 6 C11). The contract-shaped fragments (step label, no mutation of a state handed to an asynchronous save, latest-step selection) are discharged under C09/C10/C12.",
